@@ -64,6 +64,25 @@ Fixpoint in_boxb (bs : list (Z * Z)) (x : point) : bool :=
   | _, _ => false
   end.
 
+(* ---- scheduling: a generation computed by parts, in any order, and put back by index ---- *)
+Definition par_results {A} (g : nat -> A) (parts : list (list nat)) : list (nat * A) :=
+  flat_map (map (fun i => (i, g i))) parts.
+
+Fixpoint lookup {A} (i : nat) (l : list (nat * A)) : option A :=
+  match l with
+  | [] => None
+  | (k, a) :: r => if Nat.eqb k i then Some a else lookup i r
+  end.
+
+Fixpoint assemble {A} (idxs : list nat) (res : list (nat * A)) : option (list A) :=
+  match idxs with
+  | [] => Some []
+  | i :: r => match lookup i res, assemble r res with
+              | Some a, Some t => Some (a :: t)
+              | _, _ => None
+              end
+  end.
+
 Section Skeleton.
   Variable f : point -> Z.                       (* Problem::fitness *)
   Variable bounds : list (Z * Z).                (* Problem::bounds, zipped *)
@@ -121,6 +140,15 @@ Section Skeleton.
   Definition candidates (seed : N) (iter : nat) (prev : list ind) : outcome (list ind) :=
     sequence (map (candidate seed iter prev) (seq 0 (length prev))).
 
+  (* the same generation computed by parts (one list of indices per worker, any
+     order, overlaps allowed) and put back in index order *)
+  Definition candidates_sched (parts : list (list nat)) (seed : N) (iter : nat)
+             (prev : list ind) : outcome (list ind) :=
+    match assemble (seq 0 (length prev)) (par_results (candidate seed iter prev) parts) with
+    | Some l => sequence l
+    | None => Panic EmptyPopulation
+    end.
+
   (* record best -> candidates -> replace -> archive *)
   Definition generation (seed : N) (iter : nat) (s : state) : outcome state :=
     bind (candidates seed iter (pop s))
@@ -150,25 +178,6 @@ End Skeleton.
 
 (* greedy replacement: if new_fitness < ind.fitness *)
 Definition greedy (o c : ind) : bool := fit c <? fit o.
-
-(* ---- scheduling: a generation computed by parts, in any order, and put back by index ---- *)
-Definition par_results {A} (g : nat -> A) (parts : list (list nat)) : list (nat * A) :=
-  flat_map (map (fun i => (i, g i))) parts.
-
-Fixpoint lookup {A} (i : nat) (l : list (nat * A)) : option A :=
-  match l with
-  | [] => None
-  | (k, a) :: r => if Nat.eqb k i then Some a else lookup i r
-  end.
-
-Fixpoint assemble {A} (idxs : list nat) (res : list (nat * A)) : option (list A) :=
-  match idxs with
-  | [] => Some []
-  | i :: r => match lookup i res, assemble r res with
-              | Some a, Some t => Some (a :: t)
-              | _, _ => None
-              end
-  end.
 
 (* ---- Pareto (nsga2.rs dominates / moo.rs constrained_dominates) ---- *)
 Definition mo := (list Z * Z)%type.           (* objective keys, constraint violation key *)
